@@ -12,13 +12,35 @@ import itertools
 from dataclasses import dataclass, field
 from typing import Dict, FrozenSet, List, Optional, Set, Tuple
 
-from .model import Program, FuncInfo, dotted, walk_no_nested
+from .model import Program, FuncInfo, dotted, walk_no_nested, const
 
 Atom = str  # canonical text, e.g. "eq(len(shape), ndims(self))" or "!isinstance(other, tensor)"
 
 
 def _flip(op):
     return {ast.Lt: ast.Gt, ast.Gt: ast.Lt, ast.LtE: ast.GtE, ast.GtE: ast.LtE}.get(type(op), type(op))
+
+
+def strip_locals(key: str) -> str:
+    """Nested `local<...>` placeholders compare as the bare word `local` (keeps names short and bracket-balanced)."""
+    out, i, n = [], 0, len(key)
+    while i < n:
+        if key.startswith("local<", i):
+            depth, j = 0, i + 5
+            while j < n:
+                if key[j] == "<":
+                    depth += 1
+                elif key[j] == ">":
+                    depth -= 1
+                    if depth == 0:
+                        break
+                j += 1
+            out.append("local")
+            i = j + 1
+        else:
+            out.append(key[i])
+            i += 1
+    return "".join(out)
 
 
 class Canon:
@@ -38,6 +60,7 @@ class Canon:
         self.loopvars: Dict[str, str] = {}  # scoped: filled while a walker is inside the loop
         self.loopnames: Set[str] = set()
         self.with_defs: Dict[str, ast.expr] = {}
+        self.pos_text: Dict[str, str] = {}     # positional loop indices: text used when they appear outside a subscript
         self.loop_order: Dict[str, int] = {}   # loop variable -> ordinal of its first loop (name-independent placeholder)
         self._loopstack: List[Dict[str, str]] = []
         for n in walk_no_nested(fn):
@@ -69,6 +92,14 @@ class Canon:
                        and not isinstance(v, (ast.List, ast.Dict, ast.Set, ast.ListComp, ast.DictComp))}
         # locals assigned more than once: named after their FIRST definition, so that renaming them changes no key
         self.multi_first: Dict[str, ast.expr] = {}
+        self.multi_defs: Dict[str, List[ast.expr]] = {}
+        for n in walk_no_nested(fn):
+            if isinstance(n, ast.Assign):
+                for t in n.targets:
+                    if isinstance(t, ast.Name):
+                        self.multi_defs.setdefault(t.id, []).append(n.value)
+            elif isinstance(n, ast.AnnAssign) and isinstance(n.target, ast.Name) and n.value is not None:
+                self.multi_defs.setdefault(n.target.id, []).append(n.value)
         order_seen: Dict[str, ast.expr] = {}
         for n in walk_no_nested(fn):
             if isinstance(n, ast.Assign):
@@ -100,6 +131,39 @@ class Canon:
         self.loopvars = self._loopstack.pop()
 
     def _bind_loop(self, target, it):
+        """Loop variables are named by what they range over, independent of the looping idiom:
+             for x in A                     x  -> each(A)
+             for i in range(len(A))         A[i], B[i] -> each(A), each(B)      (i itself -> each(range(..)))
+             for a, b in zip(A, B)          a -> each(A), b -> each(B)
+             for i, a in enumerate(A)       a -> each(A), X[i] -> each(X)
+        """
+        base = it
+        fn = (dotted(it.func) or "") if isinstance(it, ast.Call) else ""
+        if fn == "zip" and isinstance(target, (ast.Tuple, ast.List)) and len(target.elts) == len(it.args):
+            for e, a in zip(target.elts, it.args):
+                self._bind_loop(e, a)
+            return
+        if fn == "enumerate" and isinstance(target, (ast.Tuple, ast.List)) and len(target.elts) == 2 and it.args:
+            if isinstance(target.elts[0], ast.Name):
+                self.loopvars[target.elts[0].id] = "#pos"
+                self.pos_text[target.elts[0].id] = f"each(range(len({self.text(it.args[0])})))"
+            self._bind_loop(target.elts[1], it.args[0])
+            return
+        if fn == "range" and isinstance(target, ast.Name) and it.args:
+            stop = it.args[-1] if len(it.args) <= 2 else None
+            lo = it.args[0] if len(it.args) == 2 else None
+            if stop is not None and (lo is None or const(lo) == 0):
+                sized = None
+                if isinstance(stop, ast.Call) and (dotted(stop.func) or "") in ("len",) and stop.args:
+                    sized = stop.args[0]
+                elif isinstance(stop, ast.Attribute) and stop.attr in ("size", "ndims", "ncomponents"):
+                    sized = stop
+                elif isinstance(stop, ast.Subscript) and isinstance(stop.value, ast.Attribute) and stop.value.attr == "shape":
+                    sized = stop
+                if sized is not None:
+                    self.loopvars[target.id] = "#pos"
+                    self.pos_text[target.id] = f"each(range({self.text(stop)}))"
+                    return
         txt = self.text(it)
         if isinstance(target, ast.Name):
             self.loopvars[target.id] = f"each({txt})"
@@ -128,11 +192,24 @@ class Canon:
                     if n.id in canon.multi_first and n.id not in canon._busy:
                         canon._busy.add(n.id)
                         try:
-                            first = ast.unparse(canon._inline(copy.deepcopy(canon.multi_first[n.id]), depth + 2))[:48]
+                            alts = sorted({strip_locals(ast.unparse(canon._inline(copy.deepcopy(d), depth + 2)))[:60]
+                                           for d in canon.multi_defs.get(n.id, [canon.multi_first[n.id]])
+                                           if not any(isinstance(x, ast.Name) and x.id == n.id for x in ast.walk(d))} or
+                                          {strip_locals(ast.unparse(canon._inline(copy.deepcopy(canon.multi_first[n.id]), depth + 2)))[:60]})
                         finally:
                             canon._busy.discard(n.id)
-                        return ast.Name(id="local<" + first + ">", ctx=ast.Load())
+                        # named after ALL its (non-self-referential) definitions, in sorted order: re-ordering branches or dropping a
+                        # re-binding that only wraps the value does not change the name
+                        return ast.Name(id="local<" + " | ".join(alts[:3]) + ">", ctx=ast.Load())
                 return n
+
+            def visit_Subscript(self, n):
+                # X[i] with i a positional loop index: the element of X at the current position
+                sl = n.slice
+                if isinstance(sl, ast.Name) and canon.loopvars.get(sl.id) == "#pos" and isinstance(n.ctx, ast.Load):
+                    inner = ast.unparse(self.visit(copy.deepcopy(n.value)))
+                    return ast.Name(id=f"each({inner})", ctx=ast.Load())
+                return self.generic_visit(n)
 
             def visit_ListComp(self, n):
                 return canon._alpha(n, self)
@@ -146,7 +223,8 @@ class Canon:
         return T().visit(e)
 
     def _loop_text(self, name: str, depth: int) -> str:
-        return self.loopvars[name]
+        v = self.loopvars[name]
+        return self.pos_text.get(name, "each(range)") if v == "#pos" else v
 
     def _alpha(self, comp, tr):
         comp = copy.deepcopy(comp)
@@ -221,14 +299,14 @@ def _lit(test: ast.expr, truth: bool, c: Canon) -> Atom:
             pos = (t is ast.Eq) == truth
             return f"{'' if pos else '!'}eq({x}, {y})"
         if t in (ast.Lt, ast.LtE, ast.Gt, ast.GtE):
-            # normalise to lt / le with positive polarity
+            # one relation only: a <= b is !(b < a); polarity in the sign, so that a test and its negation are syntactic opposites
             if t in (ast.Gt, ast.GtE):
                 a, b = b, a
                 t = ast.Lt if t is ast.Gt else ast.LtE
-            if not truth:
+            if t is ast.LtE:
                 a, b = b, a
-                t = ast.LtE if t is ast.Lt else ast.Lt
-            return f"{'lt' if t is ast.Lt else 'le'}({a}, {b})"
+                truth = not truth
+            return f"{'' if truth else '!'}lt({a}, {b})"
         if t in (ast.In, ast.NotIn):
             pos = (t is ast.In) == truth
             return f"{'' if pos else '!'}in({a}, {b})"
@@ -456,12 +534,69 @@ def _split2(t: str) -> Tuple[str, str]:
     return t, ""
 
 
+PYTTB_TYPES = {"tensor", "sptensor", "ktensor", "ttensor", "tenmat", "sptenmat", "sumtensor"}
+PLAIN_TYPES = {"int", "float", "bool", "str", "list", "tuple", "ndarray", "generic", "integer", "floating", "complex", "slice", "dict", "bytes"}
+
+
+def _split_args(inner: str) -> List[str]:
+    out, depth, cur = [], 0, ""
+    for ch in inner:
+        if ch in "([{":
+            depth += 1
+        elif ch in ")]}":
+            depth -= 1
+        if ch == "," and depth == 0:
+            out.append(cur.strip())
+            cur = ""
+        else:
+            cur += ch
+    if cur.strip():
+        out.append(cur.strip())
+    return out
+
+
+def _atom_parts(a: str):
+    neg = a.startswith("!")
+    body = a[1:] if neg else a
+    i = body.find("(")
+    if i < 0 or not body.endswith(")"):
+        return neg, body, []
+    return neg, body[:i], _split_args(body[i + 1:-1])
+
+
+def contradicts(a: Atom, b: Atom) -> bool:
+    """Two atoms that cannot hold together (beyond a literal and its negation)."""
+    na, fa, xa = _atom_parts(a)
+    nb, fb, xb = _atom_parts(b)
+    if fa == fb and xa == xb:
+        return na != nb
+    # a < b  vs  b < a ; a < b vs a == b
+    if fa == "lt" and fb == "lt" and not na and not nb and len(xa) == 2 and xa == xb[::-1]:
+        return True
+    if {fa, fb} == {"lt", "eq"} and not na and not nb and len(xa) == 2 and sorted(xa) == sorted(xb):
+        return True
+    # isinstance(x, pyttb classes) vs isinstance(x, plain types) ; x is None vs isinstance(x, T)
+    if fa == "isinstance" and fb == "isinstance" and not na and not nb and xa and xb and xa[0] == xb[0]:
+        ta, tb = set(xa[1].split("|")), set(xb[1].split("|"))
+        if not (ta & tb) and ((ta <= PYTTB_TYPES and tb <= PLAIN_TYPES) or (tb <= PYTTB_TYPES and ta <= PLAIN_TYPES) or (ta <= PYTTB_TYPES and tb <= PYTTB_TYPES)):
+            return True
+    for (n1, f1, x1), (n2, f2, x2) in (((na, fa, xa), (nb, fb, xb)), ((nb, fb, xb), (na, fa, xa))):
+        if f1 == "is" and not n1 and len(x1) == 2 and "None" in x1 and f2 == "isinstance" and not n2 and x2 and x2[0] in x1:
+            return True
+    return False
+
+
 def _consistent(s: FrozenSet[Atom]) -> bool:
-    for a in s:
+    items = list(s)
+    for a in items:
         if a.startswith("!") and a[1:] in s:
             return False
         if a == "const(False)":
             return False
+    for i, a in enumerate(items):
+        for b in items[i + 1:]:
+            if contradicts(a, b):
+                return False
     return True
 
 
